@@ -8,7 +8,7 @@ m = {
  "setup_cmd": "sh /verif/scripts/setup.sh",
  "hooks": {
   "guard": "verif-overlay",
-  "enable": "no source hooks: instrumentation is injected at build time with `go build -overlay` generated from /repo's current files (scripts/build.sh); private state is read by reflection",
+  "enable": "no source hooks: instrumentation is injected at build time with `go build -overlay` generated from /repo's current files (scripts/build.sh rewrites the \"sync\" import of iterator/session.go and builder/session.go to the vsync shim in /verif/overlay for the vcheck-sched binary); private state is read by reflection; vcheck-race is a plain -race build, vcheck-purego a -tags purego build",
   "baseline_off_cmd": "cd /repo && go test -mod=mod -json -vet=off -count=1 -timeout 25m ./... && cd /repo/codegen && go test -mod=mod -json -vet=off -count=1 -timeout 25m ./...",
   "source_commits": [],
   "add_only": True
